@@ -1,6 +1,7 @@
 package art
 
 import (
+	"bytes"
 	"encoding/binary"
 	"math"
 	"math/bits"
@@ -33,7 +34,13 @@ type CollationOrderKey[K chars | []rune] struct {
 func (cok *CollationOrderKey[K]) Transform(k K) ([]byte, []byte) {
 	cok.src = k
 	b := []byte(string(k))
-	return b, cok.c.Key(cok.buf, b)
+
+	// The key returned by the collator lives in cok.buf; copy it out and
+	// reset the buffer so that it does not grow with every call and stored
+	// leaves own their sort key.
+	colKey := bytes.Clone(cok.c.Key(cok.buf, b))
+	cok.buf.Reset()
+	return b, colKey
 }
 func (cok *CollationOrderKey[K]) Restore(b []byte) K { return cok.src }
 
